@@ -71,6 +71,83 @@ pub fn check_order(res: &Res) -> Result<(), String> {
     Ok(())
 }
 
+/// canonical text of a validate() result (annotation maps sorted through serde_json::Value)
+pub fn canonical_dump(res: &Res) -> String {
+    let mut ids: Vec<&String> = res.keys().collect();
+    ids.sort();
+    let mut out = String::new();
+    for id in ids {
+        let r = &res[id];
+        out.push_str(&format!("## {id} tagged {}\n", r.id));
+        match &r.ast {
+            Some(a) => out.push_str(&serde_json::to_value(a).map(|v| v.to_string()).unwrap_or_default()),
+            None => out.push_str("no tree"),
+        }
+        out.push('\n');
+        // Method.oneway is skipped by the serializer when true: dump it explicitly
+        if let Some(aidl_parser::ast::Aidl {
+            item: aidl_parser::ast::Item::Interface(i),
+            ..
+        }) = &r.ast
+        {
+            for el in &i.elements {
+                if let aidl_parser::ast::InterfaceElement::Method(m) = el {
+                    out.push_str(&format!("oneway {} {}\n", m.name, m.oneway));
+                }
+            }
+        }
+        for d in &r.diagnostics {
+            out.push_str(&serde_json::to_string(d).unwrap_or_default());
+            out.push('\n');
+        }
+    }
+    out
+}
+
+/// entry point of the child process: `vh c11-dump <case.json>`
+pub fn child_dump(path: &str) -> i32 {
+    let Ok(s) = std::fs::read_to_string(path) else { return 2 };
+    let Ok(v) = serde_json::from_str::<Value>(&s) else { return 2 };
+    let files = super::c01::files_from_json(&v["files"]);
+    let order: Vec<usize> = (0..files.len()).rev().collect();
+    match run_order(&files, &order, false) {
+        Ok((r, _)) => {
+            print!("{}", canonical_dump(&r));
+            0
+        }
+        Err(e) => {
+            println!("PANIC {e}");
+            0
+        }
+    }
+}
+
+/// compare with a re-executed copy of this program (another process: other base hash keys)
+pub fn cross_process(files: &[(String, String)], base: &Res) -> Result<(), String> {
+    let exe = std::env::current_exe().map_err(|e| format!("HARNESS: current_exe: {e}"))?;
+    let dir = std::env::temp_dir();
+    let path = dir.join(format!("vh-c11-{}-{:?}.json", std::process::id(), std::thread::current().id()).replace(['(', ')'], ""));
+    std::fs::write(&path, json!({"files": super::c01::files_json(files)}).to_string()).map_err(|e| format!("HARNESS: {e}"))?;
+    let out = std::process::Command::new(exe).arg("c11-dump").arg(&path).output();
+    let _ = std::fs::remove_file(&path);
+    let out = out.map_err(|e| format!("HARNESS: cannot run the child process: {e}"))?;
+    if !out.status.success() {
+        return Err(format!("HARNESS: child process failed: {:?}", out.status));
+    }
+    let theirs = String::from_utf8_lossy(&out.stdout).to_string();
+    let ours = canonical_dump(base);
+    if theirs != ours {
+        let (a, b): (Vec<&str>, Vec<&str>) = (ours.lines().collect(), theirs.lines().collect());
+        let i = (0..a.len().max(b.len())).find(|i| a.get(*i) != b.get(*i)).unwrap_or(0);
+        return Err(format!(
+            "another process (reverse insertion order) returns a different result; first differing line {i}:\n   this process:  {}\n   other process: {}",
+            a.get(i).unwrap_or(&"<end>"),
+            b.get(i).unwrap_or(&"<end>")
+        ));
+    }
+    Ok(())
+}
+
 fn permutation(s: &mut Src, n: usize) -> Vec<usize> {
     let mut v: Vec<usize> = (0..n).collect();
     for i in (1..n).rev() {
@@ -107,6 +184,12 @@ pub fn check_files(files: &[(String, String)], s: &mut Src, st: &mut Stats) -> R
         if let Some(d) = diff_results(&base, &res) {
             return Err(format!("fresh parser, insertion order {order:?} (run {r}): {d}"));
         }
+    }
+    // now and then: another process
+    let every = if std::env::var("VERIF_TIER_NAME").as_deref() == Ok("thorough") { 25 } else { 80 };
+    if s.below(every) == 0 {
+        cross_process(files, &base)?;
+        st.add("cross_process_comparisons", 1);
     }
     // classification
     let mut max_per_line = 0;
@@ -239,7 +322,7 @@ impl Prop for C11 {
         "C11"
     }
     fn rule(&self) -> String {
-        format!("case = generated project (1-6 files + sometimes a file without tree) biased to many import / forward-declaration statements on one line, duplicate keys with different kinds and several imports matching one reference. Oracle: {RUNS} fresh parsers (fresh hash seeds) fed random permutations of the same (id, content) set, one on another thread, validate() twice on one: all results equal (key sets, trees by ==, diagnostic vectors element-wise) and every file's diagnostics in non-decreasing start offset. Thorough tier additionally compares a canonical dump with a re-executed copy of the harness (another process). Non-trivial = a file with >= 2 diagnostics on one line, or >= 2 files, or a duplicate key / ambiguous import; distinct by project text.")
+        format!("case = generated project (1-6 files + sometimes a file without tree) biased to many import / forward-declaration statements on one line, duplicate keys with different kinds and several imports matching one reference. Oracle: {RUNS} fresh parsers (fresh hash seeds) fed random permutations of the same (id, content) set, one on another thread, validate() twice on one: all results equal (key sets, trees by ==, diagnostic vectors element-wise) and every file's diagnostics in non-decreasing start offset. About 1 case in 80 (thorough: 1 in 25) is also sent to a re-executed copy of the harness (another process, reverse insertion order) and the canonical dumps are compared. Non-trivial = a file with >= 2 diagnostics on one line, or >= 2 files, or a duplicate key / ambiguous import; distinct by project text.")
     }
     fn assumptions(&self) -> Vec<String> {
         vec!["hash seeds cannot be chosen, only resampled: a dependence that shows with probability p per run is missed with probability (1-p)^(runs-1)".into()]
@@ -262,7 +345,7 @@ impl Prop for C11 {
         }
         let before = st.classes.get("max-diagnostics-per-line:0").copied().unwrap_or(0)
             + st.classes.get("max-diagnostics-per-line:1").copied().unwrap_or(0);
-        check_files(&files, &mut s, st).map_err(|e| Fail::new(e, case()))?;
+        check_files(&files, &mut s, st).map_err(|e| if e.starts_with("HARNESS") { Fail::harness(e) } else { Fail::new(e, case()) })?;
         let after = st.classes.get("max-diagnostics-per-line:0").copied().unwrap_or(0)
             + st.classes.get("max-diagnostics-per-line:1").copied().unwrap_or(0);
         let multi = after == before; // the case landed in a bucket >= 2
